@@ -4,6 +4,7 @@ SPECIFICATION Spec
 CONSTANTS
   MaxLen = 6
   ExtraNames <- DeepNames
+  RejectSpecialParts = FALSE
   Deviations <- AllClasses
 INVARIANT TypeOK
 INVARIANT Confined
